@@ -304,13 +304,16 @@ theorem handler_matrix (img : Image) : Handler (fun s => execInstr img s .matrix
 
 /-! ### the simulation relation -/
 
-/-- where the code runs: at top level (`none`), or inside a routine call that will return to
-address `ret` with the frames `rest` of the caller left on the stack (`some (ret, rest)`) -/
-abbrev Ctx := Option (Nat × List Frame)
+/-- where the code runs: at top level (`ret = none`), or inside a routine call that will return
+to address `ret` with the frames `rest` of the caller left on the stack (`some (ret, rest)`);
+and the routines defined in the script -/
+structure Ctx where
+  ret : Option (Nat × List Frame) := none
+  routines : List (String × Sem.Routine) := []
 
 /-- the frames below the loop frames of the current activation -/
 def baseOf (K : Ctx) (loc : Option Dict) : List Frame :=
-  match K, loc with
+  match K.ret, loc with
   | some (ret, rest), some d => .call d ret :: rest
   | _, _ => []
 
@@ -324,7 +327,7 @@ structure SimU (K : Ctx) (stk : List Frame) (un : List Val) (σ : S) (s : State)
   loops : LoopsOnly stk
   eval : s.eval = []
   unnamed : s.unnamed = un
-  locals : K.isSome = σ.locals.isSome
+  locals : K.ret.isSome = σ.locals.isSome ∧ σ.routines = K.routines
   status : σ.vm.status = .running
   globals : σ.vm.globals = s.globals
   constants : σ.vm.constants = s.constants
@@ -357,7 +360,7 @@ theorem SimU.view (h : SimU K stk un σ s) :
 
 theorem SimU.of_view {σ' : S} {t : State} {pc stk' ev un' rv}
     (hr : t.status = .running) (hs : t.stack = stk ++ baseOf K σ'.locals) (hl : LoopsOnly stk)
-    (he : t.eval = []) (hu : t.unnamed = un) (hloc : K.isSome = σ'.locals.isSome)
+    (he : t.eval = []) (hu : t.unnamed = un) (hloc : K.ret.isSome = σ'.locals.isSome ∧ σ'.routines = K.routines)
     (hv : σ'.vm = View t pc stk' ev un' rv) :
     SimU K stk un σ' t := by
   refine ⟨hr, hs, hl, he, hu, hloc, ?_, ?_, ?_, ?_, ?_, ?_, ?_, ?_, ?_⟩
@@ -369,19 +372,19 @@ theorem SimU.of_view {σ' : S} {t : State} {pc stk' ev un' rv}
 /-- the current activation's dictionary is the source level's `locals` -/
 theorem SimU.activation (h : SimU K stk un σ s) : σ.locals = activation s.stack := by
   rw [h.stack]
-  have hl := h.locals
-  cases hK : K with
+  have hl := h.locals.1
+  cases hK : K.ret with
   | none =>
     rw [hK] at hl
     cases hloc : σ.locals with
-    | none => simp only [baseOf, List.append_nil, activation_only_loops stk h.loops]
+    | none => simp only [baseOf, hK, List.append_nil, activation_only_loops stk h.loops]
     | some d => rw [hloc] at hl; simp at hl
   | some p =>
     obtain ⟨ret, rest⟩ := p
     rw [hK] at hl
     cases hloc : σ.locals with
     | none => rw [hloc] at hl; simp at hl
-    | some d => simp only [baseOf, activation_loops stk d ret rest h.loops]
+    | some d => simp only [baseOf, hK, activation_loops stk d ret rest h.loops]
 
 theorem SimU.scope (h : SimU K stk un σ s) : ScopeAgree σ s :=
   ⟨h.globals, h.constants, h.activation⟩
@@ -777,37 +780,39 @@ theorem SimU.emit (h : SimU K stk un σ s) (e : Event) : SimU K stk un (σ.emit 
 theorem SimU.assign (h : SimU K stk un σ s) (n : String) (v : Val) :
     SimU K stk un (σ.assign n v) (s.putVariable n v) := by
   have hstack := h.stack
-  have hloc := h.locals
-  cases hK : K with
+  have hloc := h.locals.1
+  have hrt := h.locals.2
+  cases hK : K.ret with
   | none =>
-    rw [hK] at hloc hstack
+    rw [hK] at hloc
     have hnone : σ.locals = none := by
       cases hl : σ.locals with
       | none => rfl
       | some d => rw [hl] at hloc; simp at hloc
-    simp only [baseOf, List.append_nil] at hstack
+    simp only [baseOf, hK, List.append_nil] at hstack
     have hl : LoopsOnly s.stack := by rw [hstack]; exact h.loops
     rw [C03_toplevel_assign s n v hl]
     have : σ.assign n v = { σ with vm := { σ.vm with globals := σ.vm.globals.put n v } } := by
       simp only [S.assign, hnone]
     rw [this]
-    exact ⟨h.running, by simpa [baseOf] using hstack, h.loops, h.eval, h.unnamed,
-      by simpa using hloc, h.status,
+    exact ⟨h.running, by simpa [baseOf, hK] using hstack, h.loops, h.eval, h.unnamed,
+      ⟨by rw [hK]; simpa using hloc, hrt⟩, h.status,
       by simp only [h.globals], h.constants, h.lights, h.trace, h.defaultColor, h.matrix, h.draws, h.regs⟩
   | some p =>
     obtain ⟨ret, rest⟩ := p
-    rw [hK] at hloc hstack
+    rw [hK] at hloc
     cases hl : σ.locals with
     | none => rw [hl] at hloc; simp at hloc
     | some d =>
       rw [hl] at hstack
-      simp only [baseOf] at hstack
+      simp only [baseOf, hK] at hstack
       by_cases hn : d.has n = true
       · rw [C03_param_private s stk d ret rest n v h.loops hstack hn]
         have : σ.assign n v = { σ with locals := some (d.put n v) } := by
           simp only [S.assign, hl, hn, if_true]
         rw [this]
-        exact ⟨h.running, rfl, h.loops, h.eval, h.unnamed, rfl, h.status, h.globals, h.constants,
+        exact ⟨h.running, by simp only [baseOf, hK], h.loops, h.eval, h.unnamed,
+          ⟨by rw [hK]; rfl, hrt⟩, h.status, h.globals, h.constants,
           h.lights, h.trace, h.defaultColor, h.matrix, h.draws, h.regs⟩
       · have hn : d.has n = false := by simpa using hn
         by_cases hg : s.globals.has n = true
@@ -815,8 +820,8 @@ theorem SimU.assign (h : SimU K stk un σ s) (n : String) (v : Val) :
           have : σ.assign n v = { σ with vm := { σ.vm with globals := σ.vm.globals.put n v } } := by
             simp only [S.assign, hl, hn, h.globals, hg, if_true, Bool.false_eq_true, if_false]
           rw [this]
-          exact ⟨h.running, by simp only [hl, baseOf]; exact hstack, h.loops, h.eval, h.unnamed,
-            by simp only [hl]; rfl, h.status,
+          exact ⟨h.running, by simp only [hl, baseOf, hK]; exact hstack, h.loops, h.eval, h.unnamed,
+            ⟨by simp only [hl, hK]; rfl, hrt⟩, h.status,
             by simp only [h.globals], h.constants, h.lights, h.trace, h.defaultColor, h.matrix, h.draws,
             h.regs⟩
         · have hg : s.globals.has n = false := by simpa using hg
@@ -827,7 +832,8 @@ theorem SimU.assign (h : SimU K stk un σ s) (n : String) (v : Val) :
           have : σ.assign n v = { σ with locals := some (d ++ [(n, v)]) } := by
             simp only [S.assign, hl, hn, h.globals, hg, Bool.false_eq_true, if_false, hput]
           rw [this]
-          exact ⟨h.running, rfl, h.loops, h.eval, h.unnamed, rfl, h.status, h.globals, h.constants,
+          exact ⟨h.running, by simp only [baseOf, hK], h.loops, h.eval, h.unnamed,
+            ⟨by rw [hK]; rfl, hrt⟩, h.status, h.globals, h.constants,
             h.lights, h.trace, h.defaultColor, h.matrix, h.draws, h.regs⟩
 
 theorem SimU.constant (h : SimU K stk un σ s) (n : String) (v : Val) :
